@@ -122,7 +122,7 @@ theorem init_inv (f : Nat → Val) (t : Val → Val) (progs : List (List Op)) : 
     rw [hp] at h
     simp only [Option.map_some, Option.some.injEq] at h
     subst h
-    exact ⟨p, rfl, by simp [RInv, inflight], by intro i v h; cases h⟩
+    exact ⟨p, rfl, by simp [inflight], by intro i v h; cases h⟩
 
 /-! ### progress -/
 
